@@ -232,6 +232,9 @@ class Projector:
     def __init__(self, sim, env, plans, cfg):
         self.sim, self.env, self.plans, self.cfg = sim, env, plans, cfg
         self.all_tasks = {}   # (o,k) -> Task
+        # the observation objects of the plan, as configured (the instrument's own
+        # list is the implementation's business: it need not stay complete)
+        self.all_obs = list(getattr(sim.instrument, "observations", []))
         self.with_queue = True
         self.proposals = []
         self.alloc_time = {}
@@ -328,6 +331,9 @@ class Projector:
         tasks.sort(key=lambda r: (r["o"], r["k"]))
         obs = []
         for ob in sim.instrument.observations:
+            if not any(ob is x for x in self.all_obs):
+                self.all_obs.append(ob)
+        for ob in self.all_obs:
             plan = ob.plan
             obs.append({
                 "o": ob.name, "status": ob.status.name,
